@@ -19,6 +19,13 @@ try:
     readme = open(glob.glob(demo + "/README*")[0]).read() if glob.glob(demo + "/README*") else ""
     assert tests, "no go test demo found; verify by hand"
     placements = []
+    mdir = re.search(r"cp -r\s+\S+\s+\./(\w+)", readme)
+    if mdir:
+        # the demonstration is a package of its own, copied as a directory
+        for t in tests:
+            placements.append((t, mdir.group(1)))
+        os.makedirs(os.path.join(wt, mdir.group(1)), exist_ok=True)
+        tests = []
     for t in tests:
         m = re.search(r"cp\s+\S*%s\s+(\S+)" % re.escape(os.path.basename(t)), readme)
         d = m.group(1) if m else None
@@ -36,6 +43,8 @@ try:
         r = sh("cd %s && go test -mod=mod -vet=off -count=1 %s" % (wt, pk))
         for t, d in placements:
             os.remove(os.path.join(wt, d, os.path.basename(t)))
+        if mdir:
+            os.makedirs(os.path.join(wt, mdir.group(1)), exist_ok=True)
         return r.returncode, r.stdout.decode()[-1500:]
     rc0, out0 = run_demo()
     assert rc0 == 0, "demo does not pass on the unchanged tree:\n" + out0
